@@ -159,8 +159,12 @@ package extractor
 //@   params (i, base)
 //@   pure
 //@   ensures base == 10 ==> result == utoa(i)
+// a named group reads as the numbered group its name stands for (gmtext: what GetMatch answers:
+// the text between the group's offsets, "" for a group that does not exist or did not participate)
+//@ pred gmtext(s, idx) := if 2 * idx + 1 < len(s.indices) && s.indices[2 * idx] >= 0 && s.indices[2 * idx + 1] >= 0 then s.linePtr[s.indices[2 * idx]:s.indices[2 * idx + 1]] else ""
 //@ func (*SliceSpaceExpressionContext).GetKey
 //@   requires wfIdx(s.indices, len(s.linePtr))
 //@   ensures [src] key == "src" ==> result == s.source
 //@   ensures [line] key == "line" ==> result == utoa(s.lineNum)
+//@   ensures [named] key != "src" && key != "line" && key != "." && key != "#" && key != ".#" && key != "#." && key != "@" && in_dom(s.nameTable, key) && 0 <= map_get(s.nameTable, key) && map_get(s.nameTable, key) < 4611686018427387904 ==> result == gmtext(s, map_get(s.nameTable, key))
 //@   ensures [unknown] key != "src" && key != "line" && key != "." && key != "#" && key != ".#" && key != "#." && key != "@" && !in_dom(s.nameTable, key) ==> result == "<NAME>"
